@@ -546,6 +546,11 @@ def mutate_sheet(rng, L, env):
                        "dimshort", "noend", "widelen", "hibits", "nobegin", "cellfirst", "coloffset",
                        "shortcut", "shortfirst", "shortedge", "shortfmla", "blankcut"])
     cells = [i for i, r in enumerate(recs) if r[3] == "cell"]
+    rows = [i for i, r in enumerate(recs) if r[3] == "row"]
+    lo_row = min([it["row"] for it in L["items"] if it["k"] == "row"] or [0])
+    hi_row = max([it["row"] for it in L["items"] if it["k"] == "row"] or [0])
+    if kind in ("cellfirst", "nobegin") and hi_row > 2000:
+        kind = "trunc"                      # keep the dense range small
     shorts = [i for i, r in enumerate(recs) if r[3] == "short"]
     def short_rec():
         v = rng.choice([("real", f64_bits(2.5)), ("bool", True), ("rk", "i", 7, False), ("st", "s"), ("err", 0x07), ("blank",)])
@@ -559,7 +564,9 @@ def mutate_sheet(rng, L, env):
         return build(recs), kind
     if kind == "shortfirst" and rows:
         # a short record with no cell before it in its row (first of the row, or of the table)
-        i = rng.choice(rows + [j for j, r in enumerate(recs) if r[3] == "begin"])
+        # (straight after BrtBeginSheetData it lands in row 0: only when the rows are small, to keep
+        # the dense range small)
+        i = rng.choice(rows + ([j for j, r in enumerate(recs) if r[3] == "begin"] if hi_row <= 2000 else []))
         recs.insert(i + 1, short_rec())
         return build(recs), kind
     if kind == "shortedge" and cells:
@@ -583,11 +590,6 @@ def mutate_sheet(rng, L, env):
         recs.insert(j + 1, ((False, 0), rng.choice([1, 12]), bytes(rng.randrange(0, 8)), "cell"))
         recs.insert(j + 2, short_rec())
         return build(recs), kind
-    rows = [i for i, r in enumerate(recs) if r[3] == "row"]
-    lo_row = min([it["row"] for it in L["items"] if it["k"] == "row"] or [0])
-    hi_row = max([it["row"] for it in L["items"] if it["k"] == "row"] or [0])
-    if kind in ("cellfirst", "nobegin") and hi_row > 2000:
-        kind = "trunc"                      # keep the dense range small
     if kind == "trunc":
         b = build(recs)[:-len(L["trailer"])] if L["trailer"] else build(recs)
         return b[:rng.randrange(len(b) + 1)], kind
